@@ -1519,8 +1519,16 @@ fn alloc_case<T: Cat>(ctx: &mut Ctx, name: &str, bs: &[u8], depth_allowance: usi
 					T::decode(&mut u).is_ok()
 				},
 				2 => {
-					let mut io = parity_scale_codec::IoReader(std::io::Cursor::new(bs));
-					T::decode(&mut io).is_ok()
+					#[cfg(feature = "codec-std")]
+					{
+						let mut io = parity_scale_codec::IoReader(std::io::Cursor::new(bs));
+						T::decode(&mut io).is_ok()
+					}
+					#[cfg(not(feature = "codec-std"))]
+					{
+						let mut u = UnknownLenInput { data: bs, pos: 0 };
+						T::decode(&mut u).is_ok()
+					}
 				},
 				_ => {
 					#[cfg(feature = "bytes-f")]
